@@ -10,8 +10,12 @@ import (
 	"fmt"
 	"go/types"
 	"math/big"
+	"reflect"
+	"strings"
 
 	"golang.org/x/tools/go/ssa"
+
+	"gosym/smt"
 )
 
 const aminoPkg = "github.com/tendermint/go-amino"
@@ -375,4 +379,123 @@ func init() {
 		}
 		return iface{}
 	}
+}
+
+// ---- encoding/json numbers through types.SortJSON ----
+//
+// SortJSON decodes into interface{} and re-encodes: every JSON *number* passes through float64. encoding/json
+// writes 64-bit integers as numbers (amino's JSON writes them as strings), so after SortJSON an integer of a
+// "gojson" token is only known up to float64 rounding. jsonFloatRound applies that rounding (round-half-even to a
+// 53-bit mantissa) to every 64-bit integer leaf that encoding/json would write as a number.
+
+func (i *interpreter) round53(t *smt.Term) *smt.Term {
+	C := i.m.C
+	abs := C.Abs(t)
+	// |t| < 2^64: k = 1..11 extra bits; the last matching threshold (largest k) wins
+	res := abs
+	for k := 1; k <= 11; k++ {
+		p := C.Const(pow2(k))
+		q := C.Div(abs, p)
+		r := C.Mod(abs, p)
+		half := C.Const(pow2(k - 1))
+		up := C.Or(C.Lt(half, r), C.And(C.Eq(r, half), C.Eq(C.Mod(q, C.ConstI(2)), C.ConstI(1))))
+		rounded := C.Mul(C.Add(q, C.Ite(up, C.ConstI(1), C.ConstI(0))), p)
+		res = C.Ite(C.Le(C.Const(pow2(52+k)), abs), rounded, res)
+	}
+	return C.Ite(C.Lt(t, C.ConstI(0)), C.Neg(res), res)
+}
+
+func hasJSONMarshaler(t types.Type) bool {
+	for _, tt := range []types.Type{t, types.NewPointer(t)} {
+		ms := types.NewMethodSet(tt)
+		for j := 0; j < ms.Len(); j++ {
+			if n := ms.At(j).Obj().Name(); n == "MarshalJSON" || n == "MarshalText" {
+				return true
+			}
+		}
+	}
+	return false
+}
+
+// jsonFloatRound returns v (of static type t) with float64 rounding applied to the integer leaves encoding/json
+// writes as numbers; changed reports whether anything symbolic was rounded.
+func (i *interpreter) jsonFloatRound(t types.Type, v value, changed *bool) value {
+	if hasJSONMarshaler(t) {
+		return v
+	}
+	switch u := t.Underlying().(type) {
+	case *types.Basic:
+		switch u.Kind() {
+		case types.Int64, types.Uint64, types.Int, types.Uint, types.Uintptr:
+			if s, ok := v.(symInt); ok {
+				if s.t.Lo != nil && s.t.Hi != nil && s.t.Lo.CmpAbs(pow2(53)) <= 0 && s.t.Hi.CmpAbs(pow2(53)) <= 0 {
+					return v
+				}
+				*changed = true
+				return symInt{t: i.round53(s.t), k: s.k}
+			}
+		}
+		return v
+	case *types.Struct:
+		sv, ok := v.(structure)
+		if !ok {
+			return v
+		}
+		out := make(structure, len(sv))
+		copy(out, sv)
+		for j := 0; j < u.NumFields(); j++ {
+			f := u.Field(j)
+			if !f.Exported() {
+				continue
+			}
+			tag := reflectTag(u.Tag(j), "json")
+			if tag == "-" || strings.HasSuffix(tag, ",string") {
+				continue
+			}
+			out[j] = i.jsonFloatRound(f.Type(), sv[j], changed)
+		}
+		return out
+	case *types.Pointer:
+		p, ok := v.(*value)
+		if !ok || p == nil {
+			return v
+		}
+		nv := i.jsonFloatRound(u.Elem(), *p, changed)
+		return &nv
+	case *types.Slice:
+		if b, ok := u.Elem().Underlying().(*types.Basic); ok && b.Kind() == types.Uint8 {
+			return v // []byte: base64 text
+		}
+		sl, ok := v.([]value)
+		if !ok || sl == nil {
+			return v
+		}
+		out := make([]value, len(sl))
+		for j := range sl {
+			out[j] = i.jsonFloatRound(u.Elem(), sl[j], changed)
+		}
+		return out
+	case *types.Array:
+		av, ok := v.(array)
+		if !ok {
+			return v
+		}
+		out := make(array, len(av))
+		for j := range av {
+			out[j] = i.jsonFloatRound(u.Elem(), av[j], changed)
+		}
+		return out
+	case *types.Interface:
+		it, ok := v.(iface)
+		if !ok || it.t == nil {
+			return v
+		}
+		return iface{t: it.t, v: i.jsonFloatRound(it.t, it.v, changed)}
+	}
+	return v
+}
+
+// reflectTag extracts key from a struct tag.
+func reflectTag(tag, key string) string {
+	return reflect.StructTag(tag).Get(key)
 }
